@@ -133,12 +133,8 @@ func runC10(c *ShardCtx) {
 	// cross family (cross.go): every construct x every flag set X, parser(X) vs parser(X + -optimize-parser),
 	// with fault scripts (every block in turn returns an error / panics) and both Recover settings
 	{
-		cn := 3
-		if c.Thorough() {
-			cn = 4
-		}
 		inputs = crossInputsSmall
-		ok := runCross(c, &idx, &crossSpec{maxSize: cn, each: func(g *peg.Grammar, lr bool) {
+		ok := runCross(c, &idx, &crossSpec{maxSize: 3, each: func(g *peg.Grammar, lr bool) {
 			var gx []core.Gen
 			for m := 0; m < 4; m++ {
 				x := core.Gen{BasicLatin: m&1 != 0, OptGrammar: m&2 != 0, LeftRec: lr}
